@@ -39,21 +39,20 @@ theorem route_sound (ord : List S → List S) (T : List (S × List S)) (d : Dev)
     r.action ∈ s.acts ∧ ∃ a ∈ r.aliases, ∃ tys, get? T a = some tys ∧
       ∃ ty ∈ ord tys, (ty, s) ∈ allServices d := by
   obtain ⟨a, ha, hact⟩ := List.exists_of_findSome?_eq_some h
-  obtain ⟨hsvc, hmem⟩ := action_some ord T hact
-  obtain ⟨tys, hT, ty, hty, hf⟩ := service_some ord T hsvc
+  obtain ⟨hmem, tys, hT, ty, hty, hf⟩ := action_some ord T hact
   exact ⟨hmem, a, ha, tys, hT, ty, hty, findService_mem hf⟩
 
 /-- **Routing, generic in the tables.**  Let the alias table cover the action's family
-    (`hcov`: every service type of the family is registered under an alias the operation uses)
-    and put only versions of one service under one alias (`hkind`).  Then on every gateway in
-    which the action is defined only by members of its family and versions of one service agree
-    on it (`stdGateway`), for every iteration order of the type sets: the observation of the call
-    satisfies the judge — the request goes to an offered service defining the action, and the
-    answer is "not available" iff no offered service defines it. -/
+    (`hcov`: every service type of the family is registered under an alias the operation uses).
+    Then on every gateway in which the action is defined only by members of its family
+    (`stdGateway`; nothing is assumed about which versions of a service are offered together or
+    which of them implement an optional action, nor about duplicates), for every iteration order
+    of the type sets: the observation of the call satisfies the judge — the request goes to an
+    offered service defining the action, and the answer is "not available" iff no offered service
+    defines it. -/
 theorem routing_spec (ord : List S → List S) (hord : ∀ l x, x ∈ ord l ↔ x ∈ l)
     (T : List (S × List S)) (d : Dev) (r : OpRow)
     (hcov : ∀ ty ∈ specFamily r.action, ∃ a ∈ r.aliases, ∃ tys, get? T a = some tys ∧ ty ∈ tys)
-    (hkind : ∀ a tys, get? T a = some tys → ∀ ty ∈ tys, ∀ ty' ∈ tys, kind ty = kind ty')
     (hstd : stdGateway d r.action = true) :
     callOk (offered d) r.action (obsOf (route ord T d r)) = true := by
   cases hr : route ord T d r with
@@ -72,29 +71,19 @@ theorem routing_spec (ord : List S → List S) (hord : ∀ l x, x ∈ ord l ↔ 
     exfalso
     have hdef : r.action ∈ s0.acts := by simpa using hcon
     simp only [stdGateway, Bool.and_eq_true, List.all_eq_true] at hstd
-    obtain ⟨hfam, hunif⟩ := hstd
+    obtain ⟨hfam, hfirst⟩ := hstd
     have hkfam : k ∈ specFamily r.action := by
       have := hfam (k, s0) hk
       simpa [hdef] using this
     obtain ⟨a, ha, tys, hT, hkt⟩ := hcov k hkfam
-    -- the alias `a` resolves to some offered service `s2` of the same kind
     obtain ⟨s1, hs1⟩ := findService_isSome_of_mem hk
-    have hsome : ((ord tys).findSome? (findService d)).isSome := by
-      rw [List.findSome?_isSome_iff]
-      exact ⟨k, (hord tys k).mpr hkt, by simp [hs1]⟩
-    obtain ⟨s2, hs2⟩ := Option.isSome_iff_exists.mp hsome
-    obtain ⟨ty2, hty2, hf2⟩ := List.exists_of_findSome?_eq_some hs2
-    have hk2 : kind ty2 = kind k := hkind a tys hT ty2 ((hord tys ty2).mp hty2) k hkt
-    have hm2 := findService_mem hf2
-    have hagree := hunif (ty2, s2) hm2 (k, s0) hk
-    have hdef2 : r.action ∈ s2.acts := by
-      simp [hk2, hdef] at hagree
-      exact hagree
-    have hsvc : service ord T d a = some s2 := by simp [service, hT, hs2]
-    have hact : action ord T d a r.action = some s2 := by simp [action, hsvc, hdef2]
+    have hdef1 : r.action ∈ s1.acts := by
+      have := hfirst (k, s0) hk
+      simpa [hdef, hs1] using this
     have hnone := List.findSome?_eq_none_iff.mp hr a ha
-    rw [hact] at hnone
-    cases hnone
+    simp only [action, hT] at hnone
+    have := List.findSome?_eq_none_iff.mp hnone k ((hord tys k).mpr hkt)
+    simp [hs1, hdef1] at this
 
 /-! ### the tables of the current source -/
 
@@ -108,10 +97,6 @@ def familiesCovered (T : List (S × List S)) (ops : List OpRow) : Bool :=
   ops.all fun r => !(specFamily r.action).isEmpty &&
     (specFamily r.action).all fun ty => r.aliases.any fun a => ((get? T a).getD []).contains ty
 
-/-- one alias groups only versions of one service -/
-def aliasOneKind (T : List (S × List S)) : Bool :=
-  T.all fun p => p.2.all fun ty => p.2.all fun ty' => kind ty == kind ty'
-
 /-- (false on the unrepaired tree: `"WANPPP"` is not a key — F20a) -/
 theorem igd_aliases_resolvable :
     aliasesResolvable Gen.C20Igd.igdServiceTypes Gen.C20Igd.igdOps = true := by decide
@@ -121,26 +106,43 @@ theorem igd_aliases_resolvable :
 theorem igd_families_covered :
     familiesCovered Gen.C20Igd.igdServiceTypes Gen.C20Igd.igdOps = true := by decide
 
-theorem igd_alias_one_kind : aliasOneKind Gen.C20Igd.igdServiceTypes = true := by decide
-
 /-- **Routing of the IGD facade as it is in the source now**: for every standard gateway tree,
     every iteration order of the alias sets and every one of the facade's operations. -/
 theorem igd_routing_spec (ord : List S → List S) (hord : ∀ l x, x ∈ ord l ↔ x ∈ l) (d : Dev)
     (r : OpRow) (hr : r ∈ Gen.C20Igd.igdOps) (hstd : stdGateway d r.action = true) :
     callOk (offered d) r.action (obsOf (route ord Gen.C20Igd.igdServiceTypes d r)) = true := by
-  apply routing_spec ord hord _ d r _ _ hstd
-  · intro ty hty
-    have h := igd_families_covered
-    simp only [familiesCovered, List.all_eq_true, Bool.and_eq_true, List.any_eq_true] at h
-    obtain ⟨a, ha, hc⟩ := (h r hr).2 ty hty
-    cases hg : get? Gen.C20Igd.igdServiceTypes a with
-    | none => simp [hg] at hc
-    | some tys => exact ⟨a, ha, tys, hg, by simpa [hg] using hc⟩
-  · intro a tys hT ty hty ty' hty'
-    have h := igd_alias_one_kind
-    simp only [aliasOneKind, List.all_eq_true] at h
-    have := h (a, tys) (mem_of_get? hT) ty hty ty' hty'
-    simpa using this
+  apply routing_spec ord hord _ d r _ hstd
+  intro ty hty
+  have h := igd_families_covered
+  simp only [familiesCovered, List.all_eq_true, Bool.and_eq_true, List.any_eq_true] at h
+  obtain ⟨a, ha, hc⟩ := (h r hr).2 ty hty
+  cases hg : get? Gen.C20Igd.igdServiceTypes a with
+  | none => simp [hg] at hc
+  | some tys => exact ⟨a, ha, tys, hg, by simpa [hg] using hc⟩
+
+/-- the model's "does the getter ask at all" equals the judge's "some offered service defines the
+    action" (used by the driver to turn scripted readings into `Raw.na`) -/
+theorem avail_agree (ord : List S → List S) (hord : ∀ l x, x ∈ ord l ↔ x ∈ l) (d : Dev)
+    (r : OpRow) (hr : r ∈ Gen.C20Igd.igdOps) (hstd : stdGateway d r.action = true) :
+    (route ord Gen.C20Igd.igdServiceTypes d r).isSome = availSpec d r.action := by
+  have h := igd_routing_spec ord hord d r hr hstd
+  cases hro : route ord Gen.C20Igd.igdServiceTypes d r with
+  | none =>
+    simp only [hro, obsOf, callOk, if_true, List.isEmpty_nil, Bool.true_and, List.all_eq_true] at h
+    simp only [Option.isSome_none, availSpec]
+    symm
+    rw [Bool.eq_false_iff]
+    intro hany
+    obtain ⟨s, hs, hc⟩ := List.any_eq_true.mp hany
+    have := h s hs
+    simp at this
+    exact this (by simpa using hc)
+  | some s =>
+    simp only [hro, obsOf, callOk, Bool.false_eq_true, if_false, List.any_eq_true] at h
+    obtain ⟨s', hs', hc⟩ := h
+    simp only [Option.isSome_some, availSpec]
+    symm
+    exact List.any_eq_true.mpr ⟨s', hs', by simp at hc; simpa using hc.2⟩
 
 /-- the order the driver derives from the observed set iteration order is a legal order -/
 theorem ordOf_mem (observed l : List S) (x : S) : x ∈ ordOf observed l ↔ x ∈ l := by
@@ -170,6 +172,19 @@ example :
     ∧ stdGateway d ip.action = true ∧ stdGateway d br.action = true
     ∧ obsOf (route id Gen.C20Igd.igdServiceTypes d ip) = ⟨[7], false⟩
     ∧ obsOf (route id Gen.C20Igd.igdServiceTypes d br) = ⟨[], true⟩ := by decide
+
+/-- non-vacuity (both versions offered, an optional action implemented by one of them only —
+    F20b): the gateway satisfies `stdGateway`, and whichever version the set iteration yields first,
+    the request reaches the version that defines the action. -/
+example :
+    let ip1 : Svc := ⟨tyIP1, 1, ["GetExternalIPAddress".toList]⟩
+    let ip2 : Svc := ⟨tyIP2, 2, ["GetExternalIPAddress".toList, "RequestTermination".toList]⟩
+    let d : Dev := .mk "IGD".toList [] [("WCD".toList, .mk "WCD".toList [(tyIP1, ip1), (tyIP2, ip2)] [])]
+    let rt : OpRow := ⟨"async_request_termination".toList, ["WANIPC".toList, "WANPPPC".toList],
+      "RequestTermination".toList, true, "None".toList⟩
+    rt ∈ Gen.C20Igd.igdOps ∧ stdGateway d rt.action = true
+    ∧ obsOf (route id Gen.C20Igd.igdServiceTypes d rt) = ⟨[2], false⟩
+    ∧ obsOf (route List.reverse Gen.C20Igd.igdServiceTypes d rt) = ⟨[2], false⟩ := by decide
 
 /-! ## Part 2 — counters -/
 
